@@ -567,3 +567,77 @@
         core::mem::forget(r);
         core::mem::forget(res);
     }
+
+    // ---------------------------------------------------------------- C22: embedding of the instance state machine
+    /// C22 embedding.  add_reader_change applies the life-cycle transition of the incoming change to ITS instance exactly
+    /// once and stamps the stored sample with the generation counters AFTER the transition.  Reader knowing instances 1
+    /// and 2 in arbitrary states (instance/view state, counters 0..=3), no stored sample; an incoming change of arbitrary
+    /// kind (ALIVE, dispose, unregister, dispose+unregister) for instance 1 or 2: the addressed instance ends in the state
+    /// InstanceState::update_state (the function the C22 state-machine obligations decide) gives when applied ONCE to its
+    /// old state - in particular a rebirth advances the matching generation counter by exactly one although the code calls
+    /// update_state twice -, the other instance is untouched, and the stored sample carries the new counters.
+    /// @props C22
+    /// @kind bounded
+    /// @tier quick
+    /// @timeout 1500
+    /// @bounds 2 known instances, empty history, counters 0..=3
+    /// @fn DataReaderEntity::add_reader_change, InstanceState::update_state
+    #[cfg_attr(kani, kani::proof)]
+    #[cfg_attr(kani, kani::stub(alloc::fmt::format, verif_support::fmt_format_stub))]
+    fn c22_add_reader_change_applies_transition_once_and_stamps_sample() {
+        let mut qos = DataReaderQos::const_default();
+        qos.history = HistoryQosPolicy { kind: HistoryQosPolicyKind::KeepAll };
+        let mut r: DataReaderEntity<()> = DataReaderEntity::new(ih(99), qos, String::new(), ());
+        r.enabled = true;
+        let mut k = 1u8;
+        while k <= 2 {
+            let d: u8 = kani::any();
+            let n: u8 = kani::any();
+            kani::assume(d <= 3 && n <= 3);
+            r.instances.push(InstanceState {
+                handle: ih(k), view_state: any_view_state(), instance_state: any_instance_state(),
+                most_recent_disposed_generation_count: d as i32, most_recent_no_writers_generation_count: n as i32,
+                last_received_time_stamp: Time::new(5, 0),
+            });
+            k += 1;
+        }
+        let (bn, hn) = any_ih();
+        let kc: u8 = kani::any();
+        let kind = match kc & 3 {
+            0 => ChangeKind::Alive,
+            1 => ChangeKind::NotAliveDisposed,
+            2 => ChangeKind::NotAliveUnregistered,
+            _ => ChangeKind::NotAliveDisposedUnregistered,
+        };
+        let idx = (bn - 1) as usize;
+        let other = 1 - idx;
+        // expected: the state machine applied once to a copy of the old state
+        let mut expect = InstanceState {
+            handle: hn, view_state: r.instances[idx].view_state, instance_state: r.instances[idx].instance_state,
+            most_recent_disposed_generation_count: r.instances[idx].most_recent_disposed_generation_count,
+            most_recent_no_writers_generation_count: r.instances[idx].most_recent_no_writers_generation_count,
+            last_received_time_stamp: Time::new(5, 0),
+        };
+        expect.update_state(kind, Some(Time::new(1000, 0)));
+        let (o_is, o_vs, o_d, o_n) = (r.instances[other].instance_state, r.instances[other].view_state,
+            r.instances[other].most_recent_disposed_generation_count, r.instances[other].most_recent_no_writers_generation_count);
+        let res = r.add_reader_change(Guid::new([7; 12], crate::transport::types::EntityId::new([7, 7, 7], 7)), payload(12),
+            kind, *hn.as_ref(), Some(Time::new(3, 0)), Time::new(1000, 0));
+        assert!(outcome(&res) == 0, "with no limits and no filter the change is stored");
+        let i = &r.instances[idx];
+        assert!(i.instance_state == expect.instance_state && i.view_state == expect.view_state
+            && i.most_recent_disposed_generation_count == expect.most_recent_disposed_generation_count
+            && i.most_recent_no_writers_generation_count == expect.most_recent_no_writers_generation_count,
+            "C22: the instance of the change makes exactly ONE life-cycle transition");
+        let o = &r.instances[other];
+        assert!(o.instance_state == o_is && o.view_state == o_vs && o.most_recent_disposed_generation_count == o_d
+            && o.most_recent_no_writers_generation_count == o_n, "C22: other instances are untouched");
+        assert!(r.sample_list.len() == 1 && r.sample_list[0].instance_handle == hn
+            && r.sample_list[0].disposed_generation_count == expect.most_recent_disposed_generation_count
+            && r.sample_list[0].no_writers_generation_count == expect.most_recent_no_writers_generation_count,
+            "C22: the stored sample carries the generation counters after the transition");
+        kani::cover!(kc & 3 == 0 && expect.most_recent_disposed_generation_count > r.instances[other].most_recent_disposed_generation_count);
+        kani::cover!(kc & 3 == 1);
+        core::mem::forget(r);
+        core::mem::forget(res);
+    }
